@@ -18,7 +18,7 @@ GENERIC_VALUES = [
     "True", "False", "None", "...", "[]", "[1]", "()", "(1,)", "{1}", "{}", "{1: 2}", "{[1]}", "([1],)",
     "{(1, [2])}", "zz_name", "zz_o.attr", "zz_o.a.b", "zz_f()", "zz_f().attr", "f'x{zz_v}'", "f'plain'",
     "'%s' % zz_v", "'a' + 'b'", "'{}'.format(1)", "-zz_v", "not zz_v", "zz_d[0]", "lambda: 0",
-    "(yield)" if False else "zz_a if zz_b else zz_c", "[zz_i for zz_i in zz_l]", "*zz_star",
+    "zz_a if zz_b else zz_c", "[zz_i for zz_i in zz_l]", "*zz_star",
 ]
 STAR_FORMS = ["*zz_a", "**zz_k", "*zz_a, **zz_k", "**'x'", "**{'x': 1}"]
 
@@ -259,8 +259,7 @@ UFS = [None, "usedforsecurity=True", "usedforsecurity=False", "usedforsecurity='
        "usedforsecurity=zz_o.True_", "usedforsecurity=zz_f()", "usedforsecurity=not True", "usedforsecurity=b'True'",
        "usedforsecurity=['True']", "usedforsecurity={[1]}", "usedforsecurity=...", "usedforsecurity=''",
        "usedforsecurity=1.0", "**{'usedforsecurity': False}", "**zz_k", "UsedForSecurity=False",
-       "usedforsecurity=True_", "usedforsecurity=zz_o.True", "usedforsecurity=True.real"]
-UFS = [u for u in UFS if u != "usedforsecurity=zz_o.True"]     # `.True` is a syntax error
+       "usedforsecurity=True_", "usedforsecurity=True.real"]
 
 
 def hash_name_forms():
@@ -488,8 +487,7 @@ def gen_ssl(rng, full):
                 stmts.append(form.replace("%s", d))
             for ch in chunks(stmts, 6):
                 out.append(P(imp + ch))
-    few = ["ssl.PROTOCOL_SSLv3", "zz_a.PROTOCOL_TLSv1_2", "zz_n", "1", "zz_o.SSL", "zz_o.True", "zz_o.a1"]
-    few = [f for f in few if f != "zz_o.True"]
+    few = ["ssl.PROTOCOL_SSLv3", "zz_a.PROTOCOL_TLSv1_2", "zz_n", "1", "zz_o.SSL", "zz_o.a1"]
     for cfg in SSL_CONFIGS:
         stmts = [forms[0].replace("%s", d) for d in few] + ["def zz_g():\n    pass", "def zz_h(a, *b, c=ssl.PROTOCOL_SSLv3):\n    pass",
                                                              forms[2].replace("%s", "zz_o.PROTOCOL_SSLv2")]
